@@ -197,15 +197,19 @@ int main(int argc, char** argv)
     g_cap = thorough ? 60 : 24;
 
     long id = 0, runs = 0;
+    const long cap0 = g_cap;
     const auto run = [&](const std::string& sid, const std::string& init, const double r, const long history, vh::rng_t& rng, const long k)
     {
-        const int   n     = (k % 11 == 10) ? 1 : dims[rng.range(0, 8)];
-        const bool  quad  = smooth_ids.empty() || (k % 3 != 2);
+        // lbfgs with a long history: a problem that needs more iterations than the history holds (n = 16, kappa = 1e3, tight epsilon)
+        const bool  hard  = sid == "lbfgs" && history > 6;
+        const int   n     = hard ? 16 : ((k % 11 == 10) ? 1 : dims[rng.range(0, 8)]);
+        const bool  quad  = smooth_ids.empty() || (k % 3 != 2) || hard;
+        g_cap             = hard ? cap0 + 24 : cap0;
         rfunction_t fn;
         std::string fname;
         if (quad)
         {
-            const double kappa = (k % 7 == 0) ? 1e3 : ((k % 7 == 5) ? 1.0 : log_uniform(rng, 1, 1e3));
+            const double kappa = (hard || k % 7 == 0) ? 1e3 : ((k % 7 == 5) ? 1.0 : log_uniform(rng, 1, 1e3));
             const double s     = (k % 5 == 0) ? 1e3 : ((k % 5 == 4) ? 1e-3 : log_uniform(rng, 1e-3, 1e3));
             fn                 = std::make_unique<quad_function_t>(rng, n, kappa, s);
             fname              = "vquad[k=" + vh::hexf(kappa) + ",s=" + vh::hexf(s) + "]";
@@ -218,7 +222,7 @@ int main(int argc, char** argv)
             fname = fn->name();
         }
         auto solver = solver_t::all().get(sid);
-        const double eps   = (k % 2 == 0) ? 1e-8 : log_uniform(rng, 1e-12, 1e-4);
+        const double eps   = hard ? 1e-13 : ((k % 2 == 0) ? 1e-8 : log_uniform(rng, 1e-12, 1e-4));
         const long   maxev = thorough ? 2000 : 600;
         solver->parameter("solver::epsilon")   = eps;
         solver->parameter("solver::max_evals") = static_cast<int64_t>(maxev);
